@@ -364,128 +364,168 @@ type Options struct {
 	ForceStep int
 }
 
+// Machine is the stepping form of the reference model.
+type Machine struct {
+	P    *Prog
+	Reg  [32]int32
+	Mem  []int8
+	Pc   int32
+	Done bool   // the program has exited
+	Exit string // "ret" or "fallthrough"
+	Err  error
+}
+
+// NewMachine builds a machine in the initial state.
+func NewMachine(p *Prog, init State) *Machine {
+	m := &Machine{P: p, Reg: init.Reg, Mem: append([]int8(nil), init.Mem...)}
+	m.Reg[0] = 0
+	return m
+}
+
+// Clone copies the machine (memory included).
+func (m *Machine) Clone() *Machine {
+	c := *m
+	c.Mem = append([]int8(nil), m.Mem...)
+	return &c
+}
+
+// Step executes one instruction. forceFallThrough makes a control transfer
+// fall through. It returns the step record; ok=false when the machine is done
+// or has left the domain (m.Err set).
+func (m *Machine) Step(forceFallThrough bool) (st Step, ok bool) {
+	p := m.P
+	n := int32(len(p.Ins))
+	pc := m.Pc
+	if m.Done || m.Err != nil {
+		return st, false
+	}
+	if pc < 0 || pc%4 != 0 || pc/4 > n {
+		m.Err = ErrPC
+		return st, false
+	}
+	if pc/4 == n {
+		m.Done, m.Exit = true, "fallthrough"
+		return st, false
+	}
+	idx := int(pc / 4)
+	in := p.Ins[idx]
+	st = Step{Idx: idx, Pc: pc, Rd: -1, Reads: in.Reads()}
+	next := pc + 4
+	a, b := m.Reg[in.Rs1], m.Reg[in.Rs2]
+	w := func(r int, v int32) {
+		st.Rd, st.Val = r, v
+		if r != 0 {
+			m.Reg[r] = v
+		}
+	}
+	target := func() (int32, bool) {
+		t, ok := p.Labels[in.Label]
+		if !ok {
+			return 0, false
+		}
+		return int32(t) * 4, true
+	}
+	switch Shape(in.Op) {
+	case ShapeR, ShapeI, ShapeU, ShapeMv:
+		v, ok := ALU(in.Op, a, b, in.Imm, pc)
+		if !ok {
+			m.Err = ErrDivZero
+			return st, false
+		}
+		w(in.Rd, v)
+	case ShapeLoad:
+		addr := a + in.Imm
+		sz := AccessSize(in.Op)
+		st.Load, st.Addr, st.Size = true, addr, sz
+		if addr < 0 || int64(addr)+int64(sz) > int64(len(m.Mem)) || addr%sz != 0 {
+			m.Err = ErrAccess
+			return st, false
+		}
+		w(in.Rd, LoadValue(in.Op, m.Mem, addr))
+	case ShapeStore:
+		addr := a + in.Imm
+		sz := AccessSize(in.Op)
+		st.Store, st.Addr, st.Size = true, addr, sz
+		if addr < 0 || int64(addr)+int64(sz) > int64(len(m.Mem)) || addr%sz != 0 {
+			m.Err = ErrAccess
+			return st, false
+		}
+		st.Val = b
+		for i, by := range StoreBytes(in.Op, b) {
+			m.Mem[int(addr)+i] = by
+		}
+	case ShapeBr2, ShapeBr1:
+		st.CondBr = true
+		if Cond(in.Op, a, b) && !forceFallThrough {
+			t, ok := target()
+			if !ok {
+				m.Err = ErrLabel
+				return st, false
+			}
+			next, st.Taken = t, true
+		}
+	case ShapeJ, ShapeJal:
+		st.Jump = true
+		t, ok := target()
+		if !ok {
+			m.Err = ErrLabel
+			return st, false
+		}
+		if in.Op == "jal" {
+			w(in.Rd, pc+4)
+		}
+		if !forceFallThrough {
+			next, st.Taken = t, true
+		}
+	case ShapeJalr:
+		st.Jump = true
+		t := a + in.Imm
+		w(in.Rd, pc+4)
+		if !forceFallThrough {
+			next, st.Taken = t, true
+		}
+	case ShapeNone:
+		if in.Op == "ret" {
+			st.Next = pc
+			m.Done, m.Exit = true, "ret"
+			return st, true
+		}
+	}
+	st.Next = next
+	m.Pc = next
+	return st, true
+}
+
 // Run executes the program sequentially.
 func Run(p *Prog, init State, opt Options) Result {
-	res := Result{Reg: init.Reg, Mem: append([]int8(nil), init.Mem...)}
-	res.Reg[0] = 0
 	if opt.MaxSteps == 0 {
 		opt.MaxSteps = 20000
 	}
-	n := int32(len(p.Ins))
-	var pc int32
+	m := NewMachine(p, init)
+	res := Result{}
 	for {
-		if pc < 0 || pc%4 != 0 || pc/4 > n {
-			res.Err = ErrPC
-			return res
+		if res.Steps >= opt.MaxSteps && !m.Done {
+			// one more probe: are we exactly at the exit?
+			if m.Pc/4 == int32(len(p.Ins)) && m.Pc%4 == 0 {
+				m.Done, m.Exit = true, "fallthrough"
+			} else {
+				m.Err = ErrSteps
+			}
+			break
 		}
-		if pc/4 == n {
-			res.Exit = "fallthrough"
-			return res
+		st, ok := m.Step(opt.Force && opt.ForceStep == res.Steps)
+		if !ok {
+			res.ErrIdx = st.Idx
+			break
 		}
-		if res.Steps >= opt.MaxSteps {
-			res.Err = ErrSteps
-			return res
-		}
-		idx := int(pc / 4)
-		in := p.Ins[idx]
-		stepNo := res.Steps
 		res.Steps++
-		res.ErrIdx = idx
-		st := Step{Idx: idx, Pc: pc, Rd: -1, Reads: in.Reads()}
-		next := pc + 4
-		a, b := res.Reg[in.Rs1], res.Reg[in.Rs2]
-		w := func(r int, v int32) {
-			st.Rd, st.Val = r, v
-			if r != 0 {
-				res.Reg[r] = v
-			}
-		}
-		target := func() (int32, bool) {
-			t, ok := p.Labels[in.Label]
-			if !ok {
-				return 0, false
-			}
-			return int32(t) * 4, true
-		}
-		forced := opt.Force && opt.ForceStep == stepNo
-		switch Shape(in.Op) {
-		case ShapeR, ShapeI, ShapeU, ShapeMv:
-			v, ok := ALU(in.Op, a, b, in.Imm, pc)
-			if !ok {
-				res.Err = ErrDivZero
-				res.Steps--
-				return res
-			}
-			w(in.Rd, v)
-		case ShapeLoad:
-			addr := a + in.Imm
-			sz := AccessSize(in.Op)
-			if addr < 0 || int64(addr)+int64(sz) > int64(len(res.Mem)) || addr%sz != 0 {
-				res.Err = ErrAccess
-				res.Steps--
-				return res
-			}
-			st.Load, st.Addr, st.Size = true, addr, sz
-			w(in.Rd, LoadValue(in.Op, res.Mem, addr))
-		case ShapeStore:
-			addr := a + in.Imm
-			sz := AccessSize(in.Op)
-			if addr < 0 || int64(addr)+int64(sz) > int64(len(res.Mem)) || addr%sz != 0 {
-				res.Err = ErrAccess
-				res.Steps--
-				return res
-			}
-			st.Store, st.Addr, st.Size = true, addr, sz
-			st.Val = b
-			for i, by := range StoreBytes(in.Op, b) {
-				res.Mem[int(addr)+i] = by
-			}
-		case ShapeBr2, ShapeBr1:
-			st.CondBr = true
-			if Cond(in.Op, a, b) && !forced {
-				t, ok := target()
-				if !ok {
-					res.Err = ErrLabel
-					res.Steps--
-					return res
-				}
-				next, st.Taken = t, true
-			}
-		case ShapeJ, ShapeJal:
-			st.Jump = true
-			t, ok := target()
-			if !ok {
-				res.Err = ErrLabel
-				res.Steps--
-				return res
-			}
-			if in.Op == "jal" {
-				w(in.Rd, pc+4)
-			}
-			if !forced {
-				next, st.Taken = t, true
-			}
-		case ShapeJalr:
-			st.Jump = true
-			t := a + in.Imm
-			w(in.Rd, pc+4)
-			if !forced {
-				next, st.Taken = t, true
-			}
-		case ShapeNone:
-			if in.Op == "ret" {
-				st.Next = pc
-				if opt.Trace {
-					res.Trace = append(res.Trace, st)
-				}
-				res.Exit = "ret"
-				return res
-			}
-		}
-		st.Next = next
 		if opt.Trace {
 			res.Trace = append(res.Trace, st)
 		}
-		pc = next
+		if m.Done {
+			break
+		}
 	}
+	res.Reg, res.Mem, res.Exit, res.Err = m.Reg, m.Mem, m.Exit, m.Err
+	return res
 }
